@@ -15,7 +15,8 @@ pub static DEF: PropertyDef = PropertyDef {
     id: "C10",
     level: "exploration",
     rule: "programs made of K mutually disjoint flow scripts (own knots, globals, lists, temps, tunnels, threads, choices, functions; no TURNS_SINCE/RANDOM/shuffle, which \
-           legitimately share the turn index and seed) merged into one story x per-flow host scripts (enter, continue, choose, jump within the flow). Reference = each flow's \
+           legitimately share the turn index and seed) merged into one story x per-flow host scripts (enter, continue, choose, jump within the flow); in half of the cases one participant is the default flow itself, \
+           so that it plays on right after the current named flow was removed. Reference = each flow's \
            transcript when run alone on a fresh story. Schedules: ALL interleavings of two flows with up to 4 operations each (<= 70 per program; thorough: up to 6 each, <= 924), \
            seeded interleavings for three flows and longer scripts. Faults injected into the schedules: save + crash-restore at a rotating interleaving point (every point is \
            covered across the schedules of a program), switch-away-and-back pairs, switch_to_default_flow, removal of a finished or of the current other flow. Oracle: per flow, \
@@ -32,6 +33,7 @@ pub static DEF: PropertyDef = PropertyDef {
         "fault.crash_restore.fired",
         "fault.switch_away_and_back.fired",
         "fault.remove_other_flow.fired",
+        "fault.remove_current_flow.default_flow_plays_on",
         "flows.switch_with_pending_choices",
         "flows.switch_inside_tunnel_or_function",
         "save.multi_flow",
@@ -43,11 +45,18 @@ pub static DEF: PropertyDef = PropertyDef {
 };
 
 const FLOWS: &[&str] = &["fa", "fb", "fc"];
+/// the default flow as a participant: its script runs in the flow every story starts with
+const WITH_DEFAULT: &[&str] = &["df", "fa", "fb"];
 
-fn flow_program(rng: &mut Rng, k: usize) -> Option<Program> {
+/// Switching to a participant: `df` is the default flow.
+fn switch_op(name: &str) -> Op {
+    if name == "df" { Op::SwitchDefault } else { Op::SwitchFlow(name.to_string()) }
+}
+
+fn flow_program(rng: &mut Rng, names: &[&str]) -> Option<Program> {
     let mut decls = String::new();
     let mut bodies = String::new();
-    for f in FLOWS.iter().take(k) {
+    for f in names.iter() {
         let mut g = crate::inkgen::GenCfg::general();
         g.swarm(rng);
         g.prefix = format!("{f}_");
@@ -102,7 +111,9 @@ fn flow_script(rng: &mut Rng, flow: &str, n: usize, prog: &Program) -> Vec<Op> {
 fn generate(_corpus: &Corpus, tier: Tier, run: u64, rng: &mut Rng) -> Option<Case> {
     let three = rng.chance(1, 4);
     let k = if three { 3 } else { 2 };
-    let prog = flow_program(rng, k)?;
+    // in half of the cases one of the participants is the default flow itself
+    let names: Vec<&str> = if rng.chance(1, 2) { WITH_DEFAULT.iter().take(k).copied().collect() } else { FLOWS.iter().take(k).copied().collect() };
+    let prog = flow_program(rng, &names)?;
     let per = if three {
         3 + rng.below(4)
     } else {
@@ -113,7 +124,7 @@ fn generate(_corpus: &Corpus, tier: Tier, run: u64, rng: &mut Rng) -> Option<Cas
     };
     // the scripts of all flows in `ops`, each introduced by a SwitchFlow marker
     let mut ops = Vec::new();
-    for f in FLOWS.iter().take(k) {
+    for f in names.iter() {
         ops.push(Op::SwitchFlow(f.to_string()));
         ops.extend(flow_script(rng, f, per, &prog));
     }
@@ -228,7 +239,7 @@ fn execute(case: &Case) -> CaseResult {
                 return res;
             }
         };
-        h.apply(&Op::SwitchFlow(f.clone()));
+        h.apply(&switch_op(f));
         let mut t = Vec::new();
         for op in ops {
             let r = h.apply(op);
@@ -347,19 +358,19 @@ fn execute(case: &Case) -> CaseResult {
                         // switch away and back is a no-op
                         if let Some(c) = current {
                             let other = (c + 1) % scripts.len();
-                            h.apply(&Op::SwitchFlow(scripts[other].0.clone()));
-                            h.apply(&Op::SwitchFlow(scripts[c].0.clone()));
+                            h.apply(&switch_op(&scripts[other].0));
+                            h.apply(&switch_op(&scripts[c].0));
                             res.stats.inc("fault.switch_away_and_back.fired");
                         }
                     }
                     3 => {
                         h.apply(&Op::SwitchDefault);
-                        current = None;
+                        current = scripts.iter().position(|s| s.0 == "df");
                         res.stats.inc("fault.switch_to_default.fired");
                     }
                     _ => {
                         // remove a flow whose script is finished (it must not disturb the others)
-                        if let Some(done) = (0..scripts.len()).find(|i| next[*i] == scripts[*i].1.len() && next[*i] > 0 && !removed.contains(i)) {
+                        if let Some(done) = (0..scripts.len()).find(|i| next[*i] == scripts[*i].1.len() && next[*i] > 0 && !removed.contains(i) && scripts[*i].0 != "df") {
                             let was_current = current == Some(done);
                             let r = h.apply(&Op::RemoveFlow(scripts[done].0.clone()));
                             if let Res::Panic(s, m) = &r {
@@ -371,8 +382,12 @@ fn execute(case: &Case) -> CaseResult {
                                 removed.push(done);
                                 res.stats.inc("fault.remove_other_flow.fired");
                                 if was_current {
-                                    current = None;
+                                    // the story is back in the default flow
+                                    current = scripts.iter().position(|s| s.0 == "df");
                                     res.stats.inc("fault.remove_current_flow.fired");
+                                    if current.is_some() {
+                                        res.stats.inc("fault.remove_current_flow.default_flow_plays_on");
+                                    }
                                 }
                             }
                         }
@@ -396,7 +411,7 @@ fn execute(case: &Case) -> CaseResult {
                         res.stats.inc("flows.switch_inside_tunnel_or_function");
                     }
                 }
-                let r = h.apply(&Op::SwitchFlow(scripts[who].0.clone()));
+                let r = h.apply(&switch_op(&scripts[who].0));
                 if let Res::Panic(s, m) = &r {
                     res.fail(Violation::new("C10", "panic", s, &crate::host::norm_msg(m)).with(format!("schedule {sch_str}, switch_flow at step {step}"), "Ok".into(), r.brief()));
                     failed = true;
